@@ -49,7 +49,17 @@ where
 {
     let path = path.as_ref();
 
-    // Create the directory (and parents if needed)
+    // Create the directory (and parents if needed). On Unix every directory that has to be
+    // created - not only the last one - is created owner-only.
+    #[cfg(unix)]
+    {
+        use std::os::unix::fs::DirBuilderExt;
+        std::fs::DirBuilder::new()
+            .recursive(true)
+            .mode(0o700)
+            .create(path)?;
+    }
+    #[cfg(not(unix))]
     std::fs::create_dir_all(path)?;
 
     // Apply platform-specific permissions
